@@ -97,28 +97,38 @@ Proof. exact put_failure_resolves. Qed.
 Print Assumptions C01_put_failure_resolves.
 
 (* ---- completion (the liveness half), for the closed system in which nothing goes wrong:
-   Model/PoolSys.v composes the pool model with a client making [n] apply_async calls, the task
-   queue and pipe, workers that acknowledge and then answer each task, and the result pipe,
-   all FIFO; no worker dies, no limit fires.  For EVERY schedule of that system: it is at
-   most 6 n steps long; it is never stuck before the end; and where nothing can move any more,
-   every one of the n jobs is resolved, with its own result, its success callback run exactly
-   once and no error callback, and nothing is left in any queue.  (With failures, resolution
-   is by the theorems above and C04/C05; they are about the open model, to which the parent
-   of every reachable closed-system state belongs: C01_closed_system_is_the_open_model.) *)
-Theorem C01_completion_when_nothing_fails : forall c n sched y,
-    1 <= c_n c -> srun (sinit c n) sched = Some y -> (forall a, sys_step y a = None) ->
-    (length (jobs (par y)) = n
-     /\ (forall j, 0 <= j < Z.of_nat n ->
-           exists x, get_job (par y) j = Some x /\ ready x = true
-                     /\ value x = Some (PValue (tag_of j)) /\ cb_succ x = 1 /\ cb_err x = 0)
-     /\ (putlocks (par y) = true -> LaxSem.value (sem (par y)) = LaxSem.bound (sem (par y)))
+   Model/PoolSys.v composes the pool model with a client making [n] apply_async calls (and
+   calling close() at any moment, or never), the task queue and pipe, workers that acknowledge
+   and then answer each task, and the result pipe, all FIFO; no worker dies, no limit fires.
+   For EVERY schedule of that system: it is at most 6 n + 1 steps long; while work remains a
+   step other than close() is enabled (no deadlock, in particular not on the slot semaphore);
+   and where nothing but close() can move any more, every job is resolved, with its own result,
+   its success callback run exactly once and no error callback, and nothing is left in any
+   queue -- all n of them if close() was not called, else the ones accepted before it.
+   (With failures, resolution is by the theorems above and C04/C05; they are about the open
+   model, to which the parent of every reachable closed-system state belongs:
+   C01_closed_system_is_the_open_model.) *)
+Theorem C01_completion_when_nothing_fails : forall c n y,
+    1 <= c_n c -> sreach c n y -> (forall a, a <> SClose -> sys_step y a = None) ->
+    ((forall j, 0 <= j < Z.of_nat (length (jobs (par y))) ->
+        exists x, get_job (par y) j = Some x /\ ready x = true
+                  /\ value x = Some (PValue (tag_of j)) /\ cb_succ x = 1 /\ cb_err x = 0)
      /\ todo y = 0%nat /\ taskq y = [] /\ inq y = [] /\ outq y = [] /\ somes (wk y) = [])
-    /\ (length sched <= 6 * n)%nat.
-Proof. exact every_maximal_schedule_completes. Qed.
+    /\ (length (jobs (par y)) <= n)%nat
+    /\ (pstate (par y) = 0 ->
+          length (jobs (par y)) = n
+          /\ (putlocks (par y) = true -> LaxSem.value (sem (par y)) = LaxSem.bound (sem (par y)))).
+Proof. exact completion. Qed.
 Print Assumptions C01_completion_when_nothing_fails.
 
+Theorem C01_every_schedule_is_short : forall c n sched y,
+    srun (sinit c n) sched = Some y -> (length sched <= 6 * n + 1)%nat.
+Proof. exact every_schedule_is_short. Qed.
+Print Assumptions C01_every_schedule_is_short.
+
 Theorem C01_never_stuck_before_the_end : forall c n y,
-    1 <= c_n c -> sreach c n y -> (0 < measure y)%nat -> exists a y', sys_step y a = Some y'.
+    1 <= c_n c -> sreach c n y -> (0 < work y)%nat ->
+    exists a y', a <> SClose /\ sys_step y a = Some y'.
 Proof. intros c n y Hn Hr. apply (progress n). exact (sreach_inv c n y Hn Hr). Qed.
 Print Assumptions C01_never_stuck_before_the_end.
 
@@ -126,6 +136,11 @@ Theorem C01_every_step_makes_progress : forall y a y',
     sys_step y a = Some y' -> (measure y' < measure y)%nat.
 Proof. exact step_decreases. Qed.
 Print Assumptions C01_every_step_makes_progress.
+
+Theorem C01_no_state_is_doomed : forall c n, 1 <= c_n c -> forall y, sreach c n y ->
+    exists sched y', srun y sched = Some y' /\ ~ In SClose sched /\ work y' = 0%nat /\ all_resolved y'.
+Proof. exact can_always_complete. Qed.
+Print Assumptions C01_no_state_is_doomed.
 
 Theorem C01_closed_system_is_the_open_model : forall c n y,
     sreach c n y -> exists tr, par y = run c tr.
@@ -135,7 +150,10 @@ Print Assumptions C01_closed_system_is_the_open_model.
 Example C01_closed_system_witness :
   let c := mkcfg 2 None None None None 1 true false in
   let r := auto_run 100 [0;1;2;3;4;5;6;0;3;5;1;2;4;6;0;1;2;3;4;5;6;0;3;5;1;2;4;6]%nat (sinit c 4) in
-  srun (sinit c 4) (snd r) = Some (fst r) /\ measure (fst r) = 0%nat /\ length (snd r) = 24%nat.
+  srun (sinit c 4) (snd r) = Some (fst r) /\ measure (fst r) = 0%nat
+  /\ map (fun x => (ready x, value x)) (jobs (par (fst r)))
+     = [(true, Some (PValue 0)); (true, Some (PValue 1))]
+  /\ In SClose (snd r).
 Proof. exact closed_system_runs. Qed.
 
 (* non-vacuity: a history in which a job is resolved by a time limit, its late result and
